@@ -1,0 +1,5 @@
+//go:build !verif
+
+package seat_manager
+
+func verifHook(sm *seatManager, point string) {}
